@@ -35,6 +35,7 @@ CONSTANTS Families,      \* message kinds enumerated by this run
           FullValues,    \* TRUE : every optional field ranges over unset + its whole alphabet, independently
                          \* FALSE: set/unset lattice; the alphabet element is picked by the case's `var`
           FullFrame,     \* kinds enumerated with the full lattice of frame options; the others with a pairwise-covering subset
+          VarSet,        \* variants enumerated ({1, 2}: both elements of the mandatory fields' alphabets)
           Small          \* TRUE : EXECUTE value lists and BATCH shapes restricted to two each (quick tier)
 
 Kinds == {"STARTUP", "OPTIONS", "AUTH_RESPONSE", "CREDENTIALS", "QUERY", "PREPARE", "EXECUTE", "BATCH",
@@ -67,7 +68,7 @@ A_values  == << <<>>,
 A_token   == << <<>>, <<0, 117, 0, 112, 255>> >>
 
 Idx  == IF FullValues THEN 0..2 ELSE 0..1
-Vars == {1, 2}
+Vars == VarSet
 Pick(A, i, var) == IF i = 0 THEN None ELSE Some(A[IF FullValues THEN i ELSE var])
 
 \* ---- frame options: tracing, custom payload, compression, beta flag, stream id
@@ -389,7 +390,7 @@ vars == <<c, expect, reasons, alts, layout>>
 
 \* Two steps, only so that TLC's workers share the enumeration: an initial "seed" state per
 \* (kind, version, variant, frame options); its successors are the cases.  Seeds are not cases.
-Init == \E k \in Families, pv \in Versions, var \in Vars, x \in FrameIdx(k) :
+Init == \E k \in Families : \E pv \in Versions, var \in Vars, x \in FrameIdx(k) :
             /\ c = [kind |-> k, pv |-> pv, var |-> var, fx |-> x]
             /\ expect = "seed" /\ reasons = {} /\ alts = {} /\ layout = <<>>
 
